@@ -68,6 +68,11 @@ theorem title_length (first : TTok) (rest : List TTok) (src : List Nat) (hi : Na
   simp only [List.length_mapIdx, hlen, h1, h2]
   omega
 
+/-- non-vacuity of `title_length`: its three hypotheses hold together of `this is a test` -/
+example : ∃ first rest, toksEx = first :: rest ∧ spanOf (first :: rest) = some (first.start, 14) ∧
+    14 ≤ srcEx.length ∧ Bounded first.start 14 (first :: rest) :=
+  ⟨_, _, rfl, by decide, by decide, by unfold Bounded; decide⟩
+
 /-- Only case changes: at every position the output character is the input character, its ASCII
 upper- or lower-case variant, or — inside a proper-noun token with a canonical spelling — the
 canonical spelling's character at that offset or its ASCII upper/lower variant. -/
@@ -135,6 +140,14 @@ theorem title_first_upper (first : TTok) (rest : List TTok) (src out : List Nat)
   unfold eff
   simp only [if_true]
   exact up_not_lower _
+
+/-- non-vacuity of `title_first_upper`: all five hypotheses hold together of `this is a test`
+(first word-like token `this`, three more after it) -/
+example : ∃ first rest w ws, toksEx = first :: rest ∧
+    makeTitleCase (first :: rest) srcEx = .ok outEx ∧
+    (first :: rest).filter (·.wordLike) = w :: ws ∧ ws.length = 3 ∧
+    (w :: ws).Pairwise (fun p q => p.stop ≤ q.start) ∧ w.start < w.stop ∧ first.start ≤ w.start :=
+  ⟨_, _, _, _, rfl, by decide, rfl, rfl, by decide, by decide, by decide⟩
 
 /-- Idempotent on a fixed tokenisation: when the tokens cover the text, running the function
 again on its own output (same tokens, same consulted data) changes nothing and does not panic. -/
